@@ -86,32 +86,19 @@ impl Chooser {
 }
 
 pub fn deviations_of(trace: &[Pick]) -> Vec<String> {
+    // position-free: "label=alternative"; repeated identical deviations collapse
     let mut out = vec![];
-    let mut seen: Vec<(&'static str, u32)> = vec![];
     for p in trace {
-        let k = match seen.iter_mut().find(|(l, _)| *l == p.label) {
-            Some(e) => {
-                e.1 += 1;
-                e.1
-            }
-            None => {
-                seen.push((p.label, 0));
-                0
-            }
-        };
         if p.picked != 0 {
             let alt = match p.names {
                 Some(n) => n[p.picked as usize].to_string(),
                 None => p.picked.to_string(),
             };
-            if k == 0 && !p.label.ends_with('#') {
-                out.push(format!("{}={}", p.label, alt));
-            } else {
-                out.push(format!("{}{}={}", p.label.trim_end_matches('#'), format!("#{}", k), alt));
-            }
+            out.push(format!("{}={}", p.label.trim_end_matches('#'), alt));
         }
     }
     out.sort();
+    out.dedup();
     out
 }
 
